@@ -14,9 +14,15 @@ import (
 )
 
 // ---- abbreviation tables configured on the real code area (and handed to the model as data)
-var simpleAbbr = [][2]string{{"||", "| less"}, {">dn", "2>/dev/null"}, {"dn", "DOWN"}, {"你好", "hello "}, {"é", "é"}}
-var smallAbbr = [][2]string{{"gcm", "git checkout master"}, {"cm", "XY"}, {"ll", "ls -ltr"}, {">o", " >/dev/null"}, {"世界", "world"}}
-var cmdAbbr = [][2]string{{"l", "less"}, {"gc", "git commit"}, {"ll", "ls -l"}}
+// The tables overlap on purpose so that one key can complete abbreviations of two kinds:
+// simple `gc;` / `gcm.` minus their last rune are the small-word `gc` / `gcm` and that rune is a
+// trigger of another category; simple `ll ` ends with a whitespace after the command / small-word
+// `ll`; `dn` is a suffix of `>dn`, `cm` of `gcm`; expansions are short or multi-byte.
+var simpleAbbr = [][2]string{{"||", "| less"}, {">dn", "2>/dev/null"}, {"dn", "DOWN"}, {"你好", "hello "}, {"é", "é"},
+	{"gc;", "x"}, {"gcm.", "→!"}, {"ll ", "→ "}, {"世界。", "é"}}
+var smallAbbr = [][2]string{{"gcm", "git checkout master"}, {"cm", "XY"}, {"ll", "ls -ltr"}, {">o", " >/dev/null"}, {"世界", "world"},
+	{"gc", "git commit→"}}
+var cmdAbbr = [][2]string{{"l", "less"}, {"gc", "git commit"}, {"ll", "ls -l"}, {"gcm", "→"}}
 
 func abbrToks(t [][2]string) []abbr {
 	out := []abbr{}
@@ -65,7 +71,7 @@ type tables struct{ simple, small, cmd [][2]string }
 var vTables = tables{simpleAbbr, smallAbbr, cmdAbbr}
 
 // the tables of MCCodeArea
-var gTables = tables{[][2]string{{"ab", "你"}}, [][2]string{{"b", "bb"}}, [][2]string{{"a", "aa"}}}
+var gTables = tables{[][2]string{{"ab", "你"}, {"b;", "你"}}, [][2]string{{"b", "bb"}}, [][2]string{{"a", "aa"}}}
 
 func newDriver(fns map[string]func(*tk.CodeBuffer), content string, dotRunes int) *driver {
 	return newDriverT(fns, content, dotRunes, vTables)
@@ -121,12 +127,18 @@ var funcKeys = map[string]ui.Key{
 // event sends one terminal event to the real code area. kind: "rune" (arg = rune), "func" (name),
 // "ctrl-h", "pastestart", "pasteend".
 func (d *driver) event(kind string, r rune, name string) (panicMsg string) {
+	e := blank("")
 	defer func() {
 		if x := recover(); x != nil {
+			// Handle panicked: keep the key in the record (replayable) with the state it left behind
 			panicMsg = fmt.Sprint(x)
+			func() {
+				defer func() { recover() }()
+				d.observe(&e)
+			}()
+			d.recs = append(d.recs, e)
 		}
 	}()
-	e := blank("")
 	switch kind {
 	case "rune":
 		switch {
@@ -362,11 +374,56 @@ func eventSequence(fns map[string]func(*tk.CodeBuffer), rng *rand.Rand, steps in
 	return d.recs, ""
 }
 
+// directedSequences types every configured abbreviation in full at the end of a buffer (empty,
+// after a command word, after a wide rune), optionally followed by a trigger of each category: the
+// deterministic probes for keys that complete abbreviations of two kinds at once.
+func directedSequences(fns map[string]func(*tk.CodeBuffer)) (groups [][]rec, panics []string) {
+	for _, tab := range [][][2]string{simpleAbbr, smallAbbr, cmdAbbr} {
+		for _, e := range tab {
+			for _, prefix := range []string{"", "echo ", "你", "x;"} {
+				for _, trig := range []string{"", " ", ";", "x"} {
+					d := newDriver(fns, "", 0)
+					pm := ""
+					for _, r := range prefix + e[0] + trig {
+						if pm = d.event("rune", r, ""); pm != "" {
+							break
+						}
+					}
+					groups = append(groups, d.recs)
+					panics = append(panics, pm)
+				}
+			}
+		}
+	}
+	return
+}
+
+func typed(g []rec) string {
+	rs := []rune{}
+	for _, r := range g {
+		if len(r.Toks) == 1 && r.Ev != "reset" {
+			rs = append(rs, rune(r.Toks[0].R))
+		}
+	}
+	return fmt.Sprintf("%q", string(rs))
+}
+
 func validate(c *lib.Ctx, dir string, fns map[string]func(*tk.CodeBuffer)) error {
 	nb, ne := c.Pick(60, 1500), c.Pick(160, 3000)
 	steps := 50
 	var groups [][]rec
 	nrec := 0
+	var vac []rec
+	dg, dp := directedSequences(fns)
+	for i, g := range dg {
+		c.AddEvals(len(g) - 1)
+		nrec += len(g) - 1
+		if dp[i] != "" {
+			c.Reject("panic:after:"+g[len(g)-1].Ev, fmt.Sprintf("Handle panicked: %s after typing %s", dp[i], typed(g)), g)
+		}
+		groups = append(groups, g)
+	}
+	c.Set("v_directed_abbreviation_sequences", len(dg))
 	for i := 0; i < nb+ne; i++ {
 		var g []rec
 		var pm string
@@ -388,6 +445,9 @@ func validate(c *lib.Ctx, dir string, fns map[string]func(*tk.CodeBuffer)) error
 		if i == 0 || i == nb {
 			c.Sample(g[:min(5, len(g))])
 		}
+		if i == 0 {
+			vac = g
+		}
 		for _, r := range g {
 			if r.Ev != "reset" {
 				c.Distinct([]any{r.Ev, r.A, r.Toks, r.Res, r.Rdot})
@@ -400,7 +460,7 @@ func validate(c *lib.Ctx, dir string, fns map[string]func(*tk.CodeBuffer)) error
 	}
 	c.AddTraces(len(groups))
 	// vacuity guard: a corrupted recorded dot must be rejected
-	g := append([]rec{}, groups[0]...)
+	g := append([]rec{}, vac...)
 	for i := range g {
 		if g[i].Ev == "builtin" {
 			g[i].Res = append(append([]tok{}, g[i].Res...), attrs('X')) // a character that was never typed
